@@ -197,9 +197,10 @@ var CauseNegativeReceiver = Cause{Name: "negative-literal-receiver", Repair: fun
 	changed := false
 	q := MapPolicy(p, func(n ast.IsNode) ast.IsNode {
 		if r, ok := Receiver(n); ok {
-			// a negative literal, or `-`(non-negative literal), which is read back as a negative literal
+			// a negative literal, or `-`(POSITIVE literal), which is read back as a negative literal
+			// (`-`(0) is read back as the literal 0: that is CauseNegatedLiteralRerendered, not this defect)
 			ng, isNeg := r.(ast.NodeTypeNegate)
-			if isLongLit(r, true) || (isNeg && isLongLit(ng.Arg, false)) {
+			if isLongLit(r, true) || (isNeg && isLongLit(ng.Arg, false) && ng.Arg.(ast.NodeValue).Value.(types.Long) != 0) {
 				changed = true
 				return WithReceiver(n, ctxVar())
 			}
